@@ -38,7 +38,7 @@ FILE_INVS = {
     "C04": ["Inv_Harness_WF", "Inv_NoPanic", "Inv_C04_Seek", "Inv_C04_Read", "Inv_C04_NoBudget"],
     "C05": ["Inv_Harness_WF", "Inv_NoPanic", "Inv_C05_Read", "Inv_C05_Seek", "Inv_C05_Open", "Inv_C05_Subset"],
     "C06": ["Inv_Harness_WF", "Inv_NoPanic", "Inv_C06_Preload"],
-    "C12": ["Inv_Harness_WF", "Inv_NoPanic", "Inv_C12_Read", "Inv_C12_Whole", "Inv_C12_NoBudget"],
+    "C12": ["Inv_Harness_WF", "Inv_NoPanic", "Inv_C12_Read", "Inv_C12_Whole", "Inv_C12_NoBudget", "Inv_C12_Preload"],
     "C20": ["Inv_Harness_WF", "Inv_NoPanic", "Inv_C20_Order", "Inv_C20_Complete"],
 }
 
@@ -124,13 +124,14 @@ def run_C01(ctx):
          # a writer that omits BlockSizes: child sizes come from Tsize or from opening the children
          gen(ctx, b, "seq_nobs", ["file-gen", "-what", "seq", "-maxn", 7 if q else 16, "-wmax", 3, "-writer", "own-nobs"]),
          # trees of 8+ levels (narrow width, many chunks) and contents whose chunks repeat
-         gen(ctx, b, "deep", ["file-gen", "-what", "deep", "-maxn", 300 if q else 3000]),
+         gen(ctx, b, "deep", ["file-gen", "-what", "deep", "-maxn", 1100 if q else 3000]),
          # valid DAGs no reference writer produces: raw leaves after a dag-pb sibling; a root with a pre-1970 mtime
          gen(ctx, b, "seq_mixed", ["file-gen", "-what", "seq", "-maxn", 7 if q else 16, "-wmax", 3, "-writer", "own-mixed"]),
          gen(ctx, b, "seq_mtime", ["file-gen", "-what", "seq", "-maxn", 5 if q else 12, "-wmax", 3, "-writer", "own-mtime"])]
     # further valid DAGs no importer writes: no FileSize; a child that holds no bytes (first, in the middle, last; raw or
     # dag-pb); one more single-link level on top
-    for wr in VARIANT_WRITERS:
+    t.append(gen(ctx, b, "chunkers", ["file-gen", "-what", "chunkers"]))
+    for wr in VARIANT_WRITERS + ["own-rawroot"]:
         t.append(gen(ctx, b, "seq_" + wr, ["file-gen", "-what", "seq", "-maxn", 5 if q else 12, "-wmax", 3, "-writer", wr]))
     ctx.exhaustive = False
     decide(ctx, b, "TraceFile", FILE_INVS["C01"], t)
@@ -183,7 +184,7 @@ DIR_INVS = {
             "Inv_C02_Iter", "Inv_C02_Length"],
     "C05": ["Inv_Harness_WF", "Inv_NoPanic", "Inv_C05_Lookup", "Inv_C05_Open", "Inv_C05_NoEntryLoads"],
     "C06": ["Inv_Harness_WF", "Inv_NoPanic", "Inv_C06_Preload", "Inv_C05_NoEntryLoads"],
-    "C12": ["Inv_Harness_WF", "Inv_NoPanic", "Inv_C12_Lookup", "Inv_C12_Iter", "Inv_C12_IterTerminates", "Inv_C12_Length"],
+    "C12": ["Inv_Harness_WF", "Inv_NoPanic", "Inv_C12_Lookup", "Inv_C12_Iter", "Inv_C12_IterTerminates", "Inv_C12_Length", "Inv_C12_Preload"],
     "C15": ["Inv_Harness_WF", "Inv_NoPanic", "Inv_C15_Iter", "Inv_C15_Length", "Inv_C15_Lookup"],
     "C20": ["Inv_Harness_WF", "Inv_NoPanic", "Inv_C20_Order", "Inv_C20_Complete"],
 }
@@ -299,6 +300,10 @@ def run_mixed(pid, file_gens, dir_gens):
             ht += hist_traces(ctx, b, [(5, 2, 3, 2, "own"), (7, 3, 2, 1, "own")], 3 if q else 4, (1,), opens=("direct",), small="boundary")
             ht.append(gen(ctx, b, "randhist", ["file-gen", "-what", "randhist", "-count", 150 if q else 3000, "-seed", ctx.seed]))
             decide(ctx, b, "TraceFile", FILE_INVS[pid], ht)
+        if pid == "C12":
+            # several goroutines reach one unavailable shard at the same time (yield hooks on): every one of them gets the load error
+            ct = gen(ctx, b, "conc_missz", ["conc-gen", "-what", "missz", "-reps", 10 if q else 200])
+            decide(ctx, b, "TraceDir", ["Inv_Harness_WF", "Inv_NoPanic", "Inv_C12_ConcMissing"], [ct])
         if pid in PATH_PART:
             targets, invs = PATH_PART[pid]
             pt = [path_traces(ctx, b, targets, ["FALSE"], True, 4 if q else 1)]
@@ -356,7 +361,8 @@ def run_C10(ctx):
          bgen(ctx, b, "files", ["-maxn", 6 if q else 24, "-wmax", 3 if q else 4, "-repeat", 2]),
          # recursive imports: repeated, from another place on disk, with the root spelled as a relative path
          bgen(ctx, b, "trees", ["-count", 25 if q else 1000]),
-         bgen(ctx, b, "random", ["-count", 10 if q else 400])]
+         bgen(ctx, b, "random", ["-count", 10 if q else 400]),
+         bgen(ctx, b, "hugedir", [])]
     ctx.exhaustive = True
     decide(ctx, b, "TraceBuild", BUILD_INVS["C10"], t)
 
@@ -372,6 +378,7 @@ def run_C11(ctx):
          bgen(ctx, b, "misc", []),
          bgen(ctx, b, "random", ["-count", 25 if q else 2000]),
          bgen(ctx, b, "threshold", []),
+         bgen(ctx, b, "hugesizes", []),
          bgen(ctx, b, "quicktrees", []),
          bgen(ctx, b, "chunkers", [])]
     ctx.exhaustive = True
@@ -490,7 +497,7 @@ def run_C13(ctx):
         t += [gen(ctx, b, "hostile_hamt3", ["hostile-gen", "-what", "hamt", "-triples"]),
               gen(ctx, b, "hostile_file3", ["hostile-gen", "-what", "file", "-triples"])]
     decide(ctx, b, "TraceHostile", ["Inv_NoPanic", "Inv_C13_Reify", "Inv_C13_Op"], t,
-           extras=["Inv_X_HamtReify", "Inv_X_HamtLookup", "Inv_X_HamtLength", "Inv_X_HamtIter"])
+           extras=["Inv_X_HamtReify", "Inv_X_HamtLookup", "Inv_X_HamtLength", "Inv_X_HamtIter", "Inv_X_FileReify", "Inv_X_FileBytes"])
     # the three decoders on arbitrary bytes: every truncation / bit flips of every TLC-generated stream, random bytes
     ct = codec_cases(ctx, b, q, fuzzevery=1 if not q else 4)
     ct.append(gen(ctx, b, "codecx", ["codec-gen", "-count", 2000 if q else 100000, "-seed", ctx.seed]))
@@ -549,7 +556,7 @@ def path_traces(ctx, b, targets, mps, passive, sample):
 def run_C03(ctx):
     b = vlib.build_harness()
     q = ctx.quick
-    t = [path_traces(ctx, b, ["match", "preload", "entity", "exploreall"], ["FALSE", "TRUE"], False, 8 if q else 1)]
+    t = [path_traces(ctx, b, ["match", "preload", "entity", "exploreall"], ["FALSE", "TRUE"], False, 4 if q else 1)]
     ctx.exhaustive = not q
     decide(ctx, b, "TracePath", ["Inv_NoPanic", "Inv_C03_Target", "Inv_C03_NothingElse", "Inv_C03_PathNodes", "Inv_C03_NoMP"], t)
 
@@ -853,7 +860,7 @@ PLANS = {
              "stored structure is checked by TLC to be Canon(entries); every TLC history is applied to a real boxo shard and "
              "the result read back with this library (lookups, iteration, length) and validated against the model's set.",
              rule=RULE_DIR, technique=TECH_DIR, note=NOTE_DIR + "; CID equality itself is compared in Go"),
-    "C12": P(run_mixed("C12", [F_FAULT], [("faults", "8,16,128,1024", FAN_T)]),
+    "C12": P(run_mixed("C12", [F_FAULT, F_PRELOAD], [("faults", "8,16,128,1024", FAN_T), ("preload", "8,64", FAN_T)]),
              "exhaustive single-block unavailability and k-th-load failure (both error kinds) on every enumerated file "
              "shape and HAMT; TLC validates that reads return exactly the bytes before the missing span and then the load "
              "error, never EOF; that lookups crossing a missing shard report the error, not not-found; that iteration "
@@ -869,7 +876,7 @@ PLANS = {
              "length and preload of every enumerated HAMT (own and reference-written) is validated by TLC to be a prefix of "
              "- and on completion equal to - the pre-order of the walker's block/shard table (Inv_C20_*).",
              rule=RULE_MIX, technique=TECH_MIX),
-    "C06": P(run_mixed("C06", [F_PRELOAD, F_PRELOAD_NOBS, F_PRELOAD_MIXED, F_PRELOAD_MTIME, F_PRELOAD_INLINE] + f_variants("preload", 6, 12, VARIANT_WRITERS + ["own-shortfs"]), [("preload", "8,16,64,512", FAN_T)]),
+    "C06": P(run_mixed("C06", [F_PRELOAD, F_PRELOAD_NOBS, F_PRELOAD_MIXED, F_PRELOAD_MTIME, F_PRELOAD_INLINE] + f_variants("preload", 6, 12, VARIANT_WRITERS + ["own-shortfs", "own-rawroot"]), [("preload", "8,16,64,512", FAN_T), ("preload-es", "8,256", FAN_T)]),
              "for every enumerated file shape and HAMT: the preload reifier is run with no fault and with each single block "
              "of the entity unavailable; TLC validates loads = all blocks of the entity, none of the entries' blocks, and an "
              "error whenever a block is missing (Inv_C06_*).", rule=RULE_MIX, technique=TECH_MIX),
